@@ -36,6 +36,9 @@ func NewKvStorage() storage.KvStorage {
 type store struct {
 	skl *skiplist.SkipList
 	mu  sync.Mutex
+	// expireAt holds the deadline of the keys whose CURRENT value was written with a ttl (guarded by mu):
+	// a later write of the key replaces or clears it, so that an old timer never removes a newer value
+	expireAt map[string]time.Time
 }
 
 // SupportTTL implements storage.KvStorage interface
